@@ -5,7 +5,7 @@
 -/
 import Nervus.Proofs.CrashPlan
 import Nervus.Proofs.CrashImg
-import Nervus.Proofs.CrashTree
+import Nervus.Proofs.CrashTreeM
 namespace Nervus.Crash
 
 def allNodes (T : List Tx) : List Nat := T.flatMap (·.nodes)
@@ -40,12 +40,11 @@ structure LogOK (T : List Tx) (cs : List CTx) (c : Nat) : Prop where
   mono : TxMono cs
   maxle : ∀ tx ∈ cs, tx.txid ≤ (scan cs).maxTxid
 
-/-- the live property tree of the manifest (no leaf was ever split): one intact leaf whose entries
-    are properties of `T` (`allowed`) and include, with their value blobs, the `covered` ones -/
-structure TreeOK (allowed covered : List Nat) (t : TreeImg) : Prop where
-  shape : ∃ xs pid, t.leaves = [⟨xs.map some, false, pid⟩] ∧ SortedNat xs ∧ (∀ q ∈ xs, q ∈ allowed) ∧
-    (∀ q ∈ covered, q ∈ xs ∧ q ∈ t.blobs)
-  noinode : t.inode = none
+/-- the live property tree of the manifest: a sorted chain of leaves (one leaf entered directly,
+    or several under an internal root: `top`) whose keys are properties of `T` (`allowed`) and
+    include, with their value blobs, the `covered` ones -/
+structure TreeOK (allowed covered : List Nat) (top : Bool) (t : TreeImg) : Prop where
+  shape : ∃ X, TreeShape t X top ∧ (∀ q ∈ X.flatten, q ∈ allowed) ∧ (∀ q ∈ covered, q ∈ X.flatten ∧ q ∈ t.blobs)
 
 /-- segments and property tree of the manifest hold, together with the runs the log still
     replays, exactly the edges and properties of `T` -/
@@ -55,10 +54,9 @@ structure StoreOK (T : List Tx) (cs : List CTx) (p : PImg) : Prop where
   treeKeys : ∀ t ∈ p.trees, t.key < p.hdr.nextPage ∧ t.key < p.bm
   edges : ∀ e, e ∈ (scan cs).segs.flatMap (segEdges p) ++ (logRuns (scan cs).ckpt cs).flatMap (·.edges) ↔ e ∈ allEdges T
   runProps : ∀ q ∈ (logRuns (scan cs).ckpt cs).flatMap (·.props), q ∈ allProps T
-  ptop : (scan cs).ptop = false
   props : ∃ covered, (∀ q ∈ allProps T, q ∈ (logRuns (scan cs).ckpt cs).flatMap (·.props) ∨ q ∈ covered) ∧
     ((scan cs).proot = 0 → covered = []) ∧
-    ((scan cs).proot ≠ 0 → ∃ t, treeFind p (scan cs).proot = some t ∧ TreeOK (allProps T) covered t)
+    ((scan cs).proot ≠ 0 → ∃ t, treeFind p (scan cs).proot = some t ∧ TreeOK (allProps T) covered (scan cs).ptop t)
 
 /-- the node table on disk is a prefix of the node list that covers everything the log no longer
     replays (`c` nodes) -/
@@ -134,7 +132,6 @@ theorem Frame.store {p0 p : PImg} {T : List Tx} {cs : List CTx} (f : Frame p0 p)
     have : segEdges p = segEdges p0 := by funext k; simp [segEdges, segFind, f.segs]
     intro e; rw [this]; exact h.edges e
   runProps := h.runProps
-  ptop := h.ptop
   props := by
     obtain ⟨cov, h1, h2, h3⟩ := h.props
     exact ⟨cov, h1, h2, fun hne => by simpa [treeFind, f.trees] using h3 hne⟩
